@@ -69,6 +69,12 @@ fn xops() -> Vec<XOp> {
             o => o,
         };
         v.push(XOp::Range(del, String::new(), if del { None } else { Some((0, 65529)) }));
+        if del {
+            // DELETE without a number stays refused when something follows it on the line
+            for t in [":PRINT 9", "'x", "-"] {
+                v.push(XOp::Range(true, t.to_string(), None));
+            }
+        }
         for a in XO {
             v.push(XOp::Range(del, format!("{}", a), norm(Some((a, a)))));
             v.push(XOp::Range(del, format!("{}-", a), norm(Some((a, 65529)))));
@@ -188,13 +194,14 @@ impl Prop for C15 {
         "Histories of 5..40 steps: numbered line (unique payload per write, so every listed line identifies the write \
          it came from), bare number, LIST and DELETE in the forms (none), n, n-, -n, a-b with endpoints on, between, \
          before and after existing lines, 0, 65529, and numbers above 65529 and inverted ranges (must be rejected and \
-         change nothing). Half of the histories use a 6-number universe, the others the whole range. After every step \
+         change nothing), DELETE without a number followed by a separator, remark, ELSE or `-` (refused), and numbered \
+         lines that fit as typed but not as listed (refused; the line stored under that number stays). Half of the histories use a 6-number universe, the others the whole range. After every step \
          get_listing() must equal the BTreeMap model; every LIST must emit exactly the model's lines of the range, \
          ascending. Distinct = hash of the history; non-trivial = at least 3 LIST/DELETE range commands executed on a \
          non-empty store. Before the random histories: EXHAUSTIVE enumeration of all histories of 1 and 2 commands \
          (quick: plus every 16th of length 3; thorough: all of length 3, ~4.1 million) over the universe {0,5,10,65529} \
          with numbered lines, bare numbers (present, absent, 65530) and LIST / DELETE in all five forms with \
-         operands from {0,3,5,7,10,65529,65530} (165 commands), each checked the same way."
+         operands from {0,3,5,7,10,65529,65530}, plus DELETE without a number followed by `:PRINT 9`, a remark or `-` (must be refused), each checked the same way."
     }
 
     fn run_case(&mut self, idx: u64, rng: &mut Rng, ctx: &mut Ctx) {
@@ -222,7 +229,21 @@ impl Prop for C15 {
             let before = model.clone();
             let mut expect_list: Option<Vec<String>> = None;
             let mut must_reject = false;
-            let c: String = match rng.usize(10) {
+            let c: String = match rng.usize(12) {
+                10 => {
+                    // DELETE without a number is refused whatever follows it on the line
+                    must_reject = true;
+                    ctx.count("bare_delete_forms");
+                    rng.pick(&["DELETE:PRINT 9", "DELETE : PRINT 9", "DELETE 'x", "DELETE REM x", "IF 1 THEN DELETE ELSE PRINT 5", "DELETE -", "DELETE:", "DELETE"]).to_string()
+                }
+                11 => {
+                    // a numbered line that fits as typed but not as listed is refused, and whatever was stored
+                    // under that number stays
+                    let n = pick_num(rng, small).min(65529);
+                    ctx.count("refused_long_lines");
+                    must_reject = true;
+                    format!("{} {}", n, "?:".repeat(180 + rng.usize(220)))
+                }
                 0..=3 => {
                     let n = pick_num(rng, small);
                     uid += 1;
@@ -298,7 +319,11 @@ impl Prop for C15 {
             ctx.add("list_lines_observed", listed.len() as u64);
             let got = s.listing_text();
             let want: Vec<String> = model.values().cloned().collect();
-            let sig_form = format!("{} {}", c.trim_start().split(' ').next().unwrap_or("").trim_start_matches(|ch: char| ch.is_ascii_digit()), shape(c.trim_start().split(' ').nth(1).unwrap_or("")));
+            let sig_form = if c.len() > 300 {
+                "refused-long-line".to_string()
+            } else {
+                format!("{} {}", c.trim_start().split(' ').next().unwrap_or("").trim_start_matches(|ch: char| ch.is_ascii_digit()), shape(c.trim_start().split(' ').nth(1).unwrap_or("")))
+            };
             // the snapshot's single-line lookup (what the editor's TAB completion uses)
             {
                 let snap = s.rt.get_listing();
@@ -325,7 +350,7 @@ impl Prop for C15 {
                 );
                 return;
             }
-            if must_reject && errors.is_empty() && !c.chars().next().map(|ch| ch.is_ascii_digit()).unwrap_or(false) {
+            if must_reject && errors.is_empty() && (c.len() > 300 || !c.chars().next().map(|ch| ch.is_ascii_digit()).unwrap_or(false)) {
                 ctx.violation(
                     "not-rejected",
                     &format!("reject:{}", sig_form),
@@ -775,7 +800,7 @@ impl Prop for C05 {
         if idx % 40 == 39 {
             return self.long_line_case(rng, ctx);
         }
-        let o = Opts { data: rng.coin(), func: rng.coin(), tron: false, stop: true, max_lines: 20, input: rng.coin(), frac: rng.coin(), strings: rng.coin() };
+        let o = Opts { data: rng.coin(), func: rng.coin(), tron: false, stop: true, max_lines: 20, input: rng.coin(), frac: rng.coin(), strings: rng.coin(), arrays: rng.coin() };
         let p = gen::generate(rng, o);
         let canon = gen::render(&p);
         let spelled = gen::render_spelled(&p, rng.next_u64());
